@@ -44,7 +44,7 @@ Theorem C28_expect_without_continue_closes :
   (match r_framing r with RLen n => negb (n =? 0) | RChunked => true end) = true ->
   find_script (get_ci s_spec (r_fields r)) scripts = Some sc ->
   h_read sc = 0 -> h_src sc <> 1 ->
-  exists out, serve_one sniff now true scripts r = Some (out, true).
+  forall body_err, exists out, serve_one sniff now true scripts r body_err = Some (out, true).
 Proof. exact expect_without_continue_closes. Qed.
 Print Assumptions C28_expect_without_continue_closes.
 
